@@ -24,18 +24,19 @@ MANIFEST = dict(
           "(column i mod c, row i div c) resp. (column i div p, row i mod p), p = ceil(n/c), each column increasing, the columns a "
           "partition of 0..n-1 (C13_order_row*, C13_order_col*, column-major: concat = 0..n-1); a list is drawn only if every item keeps "
           ">= 1 character column beside its label and is refused with ValueError otherwise (C13_refusal, C13_refused_narrow, "
-          "C13_refused_label); the height of a row is the maximum over its items of max(item lines, label lines) (C13_row_heights, "
-          "C13_row_items_row/col, C13_item_height_numbered); with spacing >= 0, column k starts at k*(columns_width+spacing), item at "
-          "(k, r) is drawn at row rowstart(r) = sum of the row heights above (C13_layout_partial, C13_placements), the rectangles of "
-          "different items are disjoint (C13_no_overlap, C13_item_inside_rect) and without a forced width every line is at most w long, "
-          "also for containers nested in containers (C13_within_width_partial, C13_within_width_nested_partial); all closed under the "
-          "global context.  The model is tied to /repo on every run by rendering the same enumerated and random trees with the real "
-          "containers and the extracted model, and the property is also evaluated directly on the implementation's lines."),
-    note=("Trusted: Coq kernel; extraction; harness.  _partial theorems take as hypotheses that a sub-widget rendered at width w' is "
-          "at most w' wide and that a label is at most as wide as its text (C11-type facts about TextWidget.render, proved separately); "
-          "the cell-by-cell content of the final buffer is given as the fold of draw over the proved placements (geometry), the "
-          "per-cell reading of that fold relies on the draw theorems of C15.  Spacing < 0, columns <= 0 and a forced column width "
-          "reaching a negative column are outside the model (OutOfModel).  textwrap's chunker is an oracle checked per case."),
+          "C13_refused_label, C13_refused_label_texts); the height of a row is the maximum over its items of max(item lines, label lines) "
+          "(C13_row_heights, C13_row_items_row/col, C13_item_height_numbered); with spacing >= 0, column k starts at "
+          "k*(columns_width+spacing) and the item at (k, r) is drawn at row rowstart(r) = sum of the row heights above (C13_layout, "
+          "C13_placements), the rectangles of different items are disjoint (C13_no_overlap, C13_item_inside_rect), every label and item "
+          "is readable in full at its place in the final buffer (C13_cells) and without a forced width every line is at most w long, "
+          "for texts, separators, centred widgets, list containers and windows nested in any way (C13_within_width, using C11_width); "
+          "all closed under the global context.  The model is tied to /repo on every run by rendering the same enumerated and random "
+          "trees with the real containers and the extracted model, and the property is also evaluated directly on the implementation's lines."),
+    note=("Trusted: Coq kernel; extraction; harness.  The _partial theorems are the same statements relative to explicit hypotheses on "
+          "the sub-widgets (rendered at width w' they are at most w' wide), for item kinds outside the 'plain' class (ColumnWidget, "
+          "CheckboxWidget, lists with a forced column width can be wider than asked: for them only the hypothesis-relative statements hold).  "
+          "Spacing < 0, columns <= 0 and a forced column width reaching a negative column are outside the model (OutOfModel).  "
+          "textwrap's chunker is an oracle checked per case."),
     technique="Coq theorems over a Gallina model of the list containers + differential correspondence run and direct evaluation against /repo")
 
 PATS = [["", ") ", 1], None, ["[", "] ", 0], ["", ". ", 98]]
